@@ -82,8 +82,7 @@ def run(module, cfg=None, workers=16, simulate=None, depth=None, seed=None, cove
     jopts = []
     if dfs:
         jopts.append('-Dtlc2.tool.queue.IStateQueue=StateDeque')
-    if heap:
-        jopts.append('-Xmx%s' % heap)
+    jopts.append('-Xmx%s' % (heap or '6g'))
     if jopts:
         e['JAVA_TOOL_OPTIONS'] = (e.get('JAVA_TOOL_OPTIONS', '') + ' ' + ' '.join(jopts)).strip()
     if env:
